@@ -951,6 +951,9 @@ class bcrypt_sha256(_wrapped_bcrypt):
     def using(cls, version=None, **kwds):
         subcls = super().using(**kwds)
         if version is not None:
+            if isinstance(version, str):
+                # e.g. a CryptContext option read back from its own to_string()
+                version = int(version)
             subcls.version = subcls._norm_version(version)
         ident = subcls.default_ident
         if subcls.version > 1 and ident != IDENT_2B:
